@@ -95,6 +95,28 @@ func init() {
 		ndPkg + ".Contains":  func(in *Interp, fn *ssa.Function, a []Value) Value { return in.strContains(a[0].(*Str), a[1].(*Str)) },
 		ndPkg + ".HasSuffix": func(in *Interp, fn *ssa.Function, a []Value) Value { return in.strHasSuffix(a[0].(*Str), a[1].(*Str)) },
 		ndPkg + ".HasPrefix": func(in *Interp, fn *ssa.Function, a []Value) Value { return in.strHasPrefix(a[0].(*Str), a[1].(*Str)) },
+		ndPkg + ".Pin": func(in *Interp, fn *ssa.Function, a []Value) Value {
+			t := a[0].(*sym.Term)
+			for k := 0; k < 256 && !t.IsConst(); k++ {
+				var v int64
+				if in.tpos < len(in.trace) {
+					// replay: the decision below is recorded; any value consistent with it is found again the same way
+				}
+				vals, err := in.Sol.Values([]*sym.Term{t})
+				if err != nil {
+					in.fail("nd.Pin: %v", err)
+				}
+				v = vals[0]
+				c := in.St.Int(v)
+				if in.choose([]*sym.Term{in.St.Eq(t, c), in.St.Not(in.St.Eq(t, c))}, "pin") == 0 {
+					return c
+				}
+			}
+			if !t.IsConst() {
+				in.fail("nd.Pin: too many feasible values")
+			}
+			return t
+		},
 		ndPkg + ".Symbolic":  func(in *Interp, fn *ssa.Function, a []Value) Value { return in.St.True },
 		ndPkg + ".Reach": func(in *Interp, fn *ssa.Function, a []Value) Value {
 			in.reached = append(in.reached, "reach:"+a[0].(*Str).conc)
